@@ -495,6 +495,8 @@ def run(ctx, only=None):
                        "every tensor's WriterTo writes exactly Tensor.Size() bytes", "the file is shorter than 2^63 bytes",
                        "Tensor.block (Sscanf) is an oracle: block numbers are taken from the implementation"]
     ctx.proof_stage(["Gguf"], "Gguf/Properties_C05.v", extra_targets=["Gguf/Corr.v"], expect_theorems=['C05_kv_roundtrip', 'C05_tensor_meta_roundtrip', 'C05_tensor_bytes_at_offset', 'C05_end_offset', 'C05_tensor_bytes_unrepaired_refuted'])
+    if not ctx.quick():
+        ctx.coqchk(["V.Gguf.Properties_C05", "V.Gguf.Corr"])
     binp = ctx.go_build("c05")
     if not binp:
         return
